@@ -677,6 +677,33 @@ func localFieldSource(cell *ssa.Alloc, field int, depth int) ssa.Value {
 			switch y := x.Val.(type) {
 			case *ssa.UnOp:
 				if b, ok := y.X.(*ssa.Alloc); ok && y.Op == token.MUL {
+					s2 := localFieldSource(b, field, depth+1)
+					if n > 1 && s2 != nil && s2 == src {
+						// the same struct handed over on several paths (`return req, err` / `return req, nil`)
+						n--
+						continue
+					}
+					src = s2
+					continue
+				}
+			case *ssa.Phi:
+				// the same local struct read on several paths (`return req, err` / `return req, nil` of an expanded helper)
+				var b *ssa.Alloc
+				same := len(y.Edges) > 0
+				for _, e := range y.Edges {
+					ld, isLd := e.(*ssa.UnOp)
+					if !isLd || ld.Op != token.MUL {
+						same = false
+						break
+					}
+					a2, isA := ld.X.(*ssa.Alloc)
+					if !isA || b != nil && a2 != b {
+						same = false
+						break
+					}
+					b = a2
+				}
+				if same && b != nil {
 					src = localFieldSource(b, field, depth+1)
 					continue
 				}
